@@ -12,6 +12,7 @@ pub mod model;
 pub mod src;
 pub mod stubs;
 
+pub mod h_codec;
 pub mod h_known;
 pub mod h_layout;
 pub mod h_merge;
